@@ -3,34 +3,48 @@
 Bounded exhaustive enumeration of (forest, query, options, entry point) executed against the real
 insights.parsr.query code and compared, as lists of node identities, with the reference model in
 ref/c20_query_model.py (two formulations, cross-checked on every case).  A second universe enumerates
-every boolean combination of depth <= 2 over the predicate atoms and compares the interpreted
-evaluator (test) with the compiled one (to_pyfunc) on every node value.
+boolean combinations over the predicate atoms and compares the interpreted evaluator (test) with the
+compiled one (to_pyfunc) on every node value.
 
 The space is cut into sub-universes, each enumerated completely:
 
-  BOOL  all predicates of depth <= 2 over the atoms x all node values           (interpreted vs compiled)
+  BOOL  all predicates of depth <= 2 over the atoms, All/Any with three operands, depth-3 combinations of
+        case-sensitive and case-insensitive leaves  x  all node values (str, int, "", 0)     (interpreted vs compiled)
   UA    forests <= 2 nodes, all 15 labels  x  every one-level query form over the large predicate set
+  UF    forests 0..2 nodes, 12 falsy / boundary labels (name "", attributes 0, "", None, three mixed attributes,
+        a matching attribute before a raising one)  x  one- and two-level queries built for them
   U1    forests <= 3 nodes, 6 labels       x  all one- and two-level queries over the medium level set
   U2    forests  = 4 nodes, 6 labels       x  all one- and two-level queries over the reduced level set
   UA3   forests  = 3 nodes, all 15 labels  x  (thorough) every one-level query form over the quick predicate set
   U2B   forests  = 5 nodes, 4 labels       x  (thorough) all one- and two-level queries over 5 levels
   U3    forests  = 5 nodes, names only     x  all three-level queries over {literal, None}
-  UEP   forests <= 3 nodes                 x  every entry point (select, find, [], chained select, chained
-                                              [], where) on Entry, from_dict, a real ConfigParser (nginx)
-                                              document and a Result over several documents
+  UD    chains 60 deep (40 through the nginx parser), with and without a leaf beside every nested node
+                                           x  all one-, two- and three-level name queries
+  UEP   forests <= 3 nodes                 x  every entry point (select, find, find_all, [], chained select,
+                                              chained [], where) on Entry, from_dict, a real ConfigParser (nginx)
+                                              document and a Result over several documents; two-step histories
+                                              on ONE document / ONE Result object (query, then query again,
+                                              also with the identical python query objects)
 
 UA..U3 run compile_queries() once per query and the module-level select() per (forest, options): that is
-literally the body of Entry.select, and it keeps the cost at ~15 us per case; UEP goes through the
-public methods (one exec-compile per call, ~100 us).  Every bulk forest is queried as a document
-(Entry container, 4 option combinations) and, in U1/U2/U2B/U3, also as a Result over several parentless
+literally the body of Entry.select, and it keeps the cost at ~15-20 us per case; UEP goes through the
+public methods (one exec-compile per call, ~150 us).  Every bulk forest is queried as a document
+(Entry container, 4 option combinations) and, in UF/U1/U2/U2B/U3, also as a Result over several parentless
 documents (each top-level tree is its own document) so that `roots` has something to de-duplicate.
+The built objects are reused by thousands of queries; after every query their structure (names, attributes,
+child lists, parent links, read through public attributes) is compared with the snapshot taken when they were
+built (clause query:tree-unchanged) - a query that re-parents or drops nodes is a verdict, not a harness error.
 
-Observations that are NOT judged (outside the property's quantifier or its weaker reading):
-  * deep multi-level queries return match-path order, which is not always global pre-order
-    (counter deep_multilevel_results_not_in_preorder);
-  * select() with zero queries raises IndexError although ConfigComponent.select's docstring says it
-    returns everything (the quantifier starts at one level);
-  * select(..., roots=True) on a parsed document always yields the document container itself.
+Results are demanded in DOCUMENT ORDER for every option combination, as the statement says.  The unchanged
+tree does not do that for deep multi-level queries whose level-1 matches nest (it returns match-path order);
+such violations carry the feature deep_multilevel_match_path_order (findings-draft/C20.json).
+
+Not judged (outside the property's quantifier): select() with zero queries raises IndexError although
+ConfigComponent.select's docstring says it returns everything (the quantifier starts at one level);
+select(..., roots=True) on a parsed document yields the document container itself (that IS the ultimate
+ancestor); a node object shared by two parents is not a tree; False / True as attribute values next to 0 / 1
+(literal equality is Python's ==, the statement does not say whether 0 matches False); None as an attribute
+literal in a query tuple; chains deeper than ~500 raise RecursionError in _flatten (no parser produces them).
 """
 import itertools
 
@@ -50,7 +64,9 @@ ASSUMPTIONS = [
     "non-raising (predicate, value) pair",
     "a boolean combination is one predicate: if its short-circuit evaluation raises the value does not match "
     "(skipped leaves do not count as raising); each element of a query tuple is its own predicate",
-    "deep multi-level results are demanded in match-path order (level by level), not in strict global pre-order",
+    "results are demanded in document (pre-)order for every option combination; match-path order is computed only "
+    "to attribute the known deep multi-level family narrowly",
+    "a query must not change the tree: structure read through public attributes is compared after every query",
     "roots maps to the node reached by following parent links to the end (the document container for parsed documents)",
     "compile_queries()+select() is used for the bulk universes (the two-line body of Entry.select); the public "
     "methods are enumerated in UEP",
@@ -62,10 +78,12 @@ ATTRS = [[], ["x"], [1], ["x", "Y"], [1, "x"]]
 VALUES = ["a", "b", "A", "x", "Y", 1, "ab", "", 0]      # names and attributes, str and int, falsy ones too
 
 BOUNDS = {
-    "quick": {"max_nodes": 4, "three_level_nodes": 5, "max_depth": 3, "levels": 3, "predicate_depth": 2,
-              "predicate_atoms": 9, "labels_full": 15, "labels_reduced": 6},
-    "thorough": {"max_nodes": 5, "three_level_nodes": 5, "max_depth": 3, "levels": 3, "predicate_depth": 2,
-                 "predicate_atoms": 16, "labels_full": 15, "labels_reduced": 6},
+    "quick": {"max_nodes": 4, "three_level_nodes": 5, "max_depth": 3, "deep_chain_depth": 60, "levels": 3,
+              "predicate_depth": 2, "predicate_depth_mixed_case_spine": 3, "predicate_atoms": 9, "node_values": 9,
+              "labels_full": 15, "labels_reduced": 6, "labels_falsy": 12, "history_steps": 3},
+    "thorough": {"max_nodes": 5, "three_level_nodes": 5, "max_depth": 3, "deep_chain_depth": 60, "levels": 3,
+                 "predicate_depth": 2, "predicate_depth_mixed_case_spine": 3, "predicate_atoms": 16, "node_values": 9,
+                 "labels_full": 15, "labels_reduced": 6, "labels_falsy": 12, "history_steps": 3},
 }
 CAP_S = {"quick": 240, "thorough": 3000}
 
@@ -1283,5 +1301,5 @@ LEVEL_TEXT = ("Every forest within the node bound, every query of the stated for
               "path-wise formulations agree on every case). The query language is compositional, so the space is cut into "
               "sub-universes that are each enumerated completely; no sampling decides anything.")
 LEVEL_NOTE = ("Trusted: ref/c20_query_model.py (readings written at its top); bounded by nodes <= 4/5, depth <= 3, <= 3 levels, "
-              "predicate depth <= 2, the stated name/attribute alphabets; Entry.where, choose, upto, nth and zero-level "
-              "select() are not covered.")
+              "predicate depth <= 2 (3 on a mixed-case spine), the stated name/attribute alphabets; Entry.where, choose, "
+              "upto, nth (the statement names select/find/[]), shared sub-trees and zero-level select() are not covered.")
